@@ -26,6 +26,8 @@ mod rpc;
 pub mod testonly;
 #[cfg(test)]
 mod tests;
+#[cfg(feature = "verif")]
+pub mod verif;
 mod watch;
 pub use config::*;
 pub use metrics::MeteredStreamStats;
